@@ -474,7 +474,7 @@ func (e *env) startReceiver(variant string) (*recvEnv, error) {
 			re.comps = append(re.comps, c)
 		}
 		for _, c := range re.comps {
-			if err := c.Start(context.Background(), h); err != nil {
+			if err := startC(func(sc context.Context) error { return c.Start(sc, h) }); err != nil {
 				lastErr = err
 				ok = false
 				break
@@ -565,7 +565,7 @@ func (e *env) exporter(p planLine) (*expEnv, error) {
 	if err != nil {
 		return nil, err
 	}
-	if err := x.comp.Start(context.Background(), h); err != nil {
+	if err := startC(func(sc context.Context) error { return x.comp.Start(sc, h) }); err != nil {
 		return nil, err
 	}
 	e.exps[key] = x
@@ -995,4 +995,12 @@ func pad(payload any, r *rand.Rand) {
 		}
 	}
 	m.PutStr("verif.pad", b.String())
+}
+
+// startC calls a component's Start with a context that is cancelled as soon as Start has returned: component.Component
+// says that context "will be cancelled soon", so nothing that has to outlive Start may depend on it.
+func startC(start func(context.Context) error) error {
+	ctx, cancel := context.WithCancel(context.Background())
+	defer cancel()
+	return start(ctx)
 }
